@@ -239,7 +239,8 @@ Section Ops.
 
   (* ================================ point-wise recombinators ===================================== *)
   Inductive pwkind := PWUniform | PWSample | PWAverage | PWWeighted.
-  Inductive wheresel := WAll | WAny (k : nat).
+  Inductive wheresel := WAll | WAny (k : nat) | WEvens.     (* where.ALL / where.Any(k) / a function: lambda xs: xs[::2] *)
+  Fixpoint evens {A} (l : list A) : list A := match l with x :: _ :: r => x :: evens r | _ => l end.
   Definition numeric (kd : pwkind) : bool := match kd with PWAverage | PWWeighted => true | _ => false end.
   Definition aeqb (a b : addr) : bool := forallb2 Nat.eqb a b.
   Definition amem (a : addr) (l : list addr) : bool := existsb (aeqb a) l.
@@ -260,6 +261,7 @@ Section Ops.
   Definition where_sel {A} (w : wheresel) (pts : list A) (r : R) : res (list A * R) :=
     match w with
     | WAll => Ok (pts, r)
+    | WEvens => Ok (evens pts, r)
     | WAny k => if length pts <=? k then Ok (pts, r)
                 else let (idx, r1) := sample G (length pts) k r in
                      match opt_list (map (nth_error pts) (sort_by Nat.leb idx)) with
